@@ -51,7 +51,39 @@ def add_trashed(L, rng, tdir_rel, name, loc_rel, date, kind, tag,
             'kind': kind, 'home': home, 'volume': volume_rel}
 
 
-def rand_date(rng, lo=2001, hi=2030):
+# time zones with daylight saving and local times around their switches
+# (naive DeletionDate values are wall-clock readings: code that converts them
+# through mktime/timestamp() is off by an hour around these)
+DST_ZONES = {
+    'Europe/Rome': ['2024-03-31T01:59:59', '2024-03-31T02:30:00',
+                    '2024-03-31T03:00:00', '2024-03-31T03:10:00',
+                    '2024-10-27T01:30:00', '2024-10-27T02:30:00',
+                    '2024-10-27T03:00:01', '2024-10-26T02:30:00',
+                    '2024-03-30T02:30:00'],
+    'EST5EDT,M3.2.0,M11.1.0': ['2024-03-10T01:59:59', '2024-03-10T02:30:00',
+                               '2024-03-10T03:10:00', '2024-11-03T01:30:00',
+                               '2024-11-03T02:00:00', '2024-11-03T00:59:59',
+                               '2024-03-09T02:30:00', '2024-11-02T01:30:00'],
+    'Australia/Lord_Howe': ['2024-10-06T02:00:00', '2024-10-06T02:15:00',
+                            '2024-10-06T02:40:00', '2024-04-07T01:45:00',
+                            '2024-04-07T01:30:00', '2024-04-07T02:10:00'],
+}
+PLAIN_ZONES = ['UTC', 'Asia/Kolkata', 'Pacific/Kiritimati', 'Etc/GMT+12']
+
+
+def pick_tz(rng, p_dst=0.12, p_plain=0.06):
+    """None (harness default) / a zone name; DST zones come with their edges"""
+    r = rng.random()
+    if r < p_dst:
+        return rng.choice(sorted(DST_ZONES))
+    if r < p_dst + p_plain:
+        return rng.choice(PLAIN_ZONES)
+    return None
+
+
+def rand_date(rng, lo=2001, hi=2030, tz=None):
+    if tz in DST_ZONES and rng.random() < 0.7:
+        return rng.choice(DST_ZONES[tz])
     return '%04d-%02d-%02dT%02d:%02d:%02d' % (
         rng.randint(lo, hi), rng.randint(1, 12), rng.randint(1, 28),
         rng.randint(0, 23), rng.randint(0, 59), rng.randint(0, 59))
